@@ -551,7 +551,7 @@ fn main() {
         class: 0,
         events: vec![],
     };
-    let rounds = if args.thorough { 60 } else { 7 };
+    let rounds = if args.thorough { 60 } else { 20 };
     let max_n = if args.thorough { 10 } else { 6 };
 
     for round in 0..rounds {
